@@ -525,9 +525,10 @@ static void strip_nonascii_infos(hwloc_topology_t t)
 }
 
 /* ------------------------------------------------------------------ stage other */
+static hwloc_topology_t distrib_topology(const struct topo *tp);
 static void distrib_checks(const struct topo *tp, uint64_t *idx)
 {
-  hwloc_topology_t t = tp->t; int pus = hwloc_bitmap_weight(hwloc_topology_get_topology_cpuset(t));
+  hwloc_topology_t t = distrib_topology(tp); if (!t) return; int pus = hwloc_bitmap_weight(hwloc_topology_get_topology_cpuset(t));
   static const char *VAR[] = { "", "--single", "--cof list", "--taskset", "--reverse" };
   for (int v = 0; v < 5; v++) for (int n = 1; n <= 2 * pus + 1; n++, (*idx)++) {
     if (!mc_mine(*idx) || mc_deadline()) continue;
@@ -564,6 +565,60 @@ static void distrib_checks(const struct topo *tp, uint64_t *idx)
 }
 
 extern char *program_invocation_name, *program_invocation_short_name;
+/* hwloc-distrib with --from / --to / --at for every level, alone and after --restrict to the first half of the PUs
+ * (the restriction may remove or merge levels: the depths must be looked up in the restricted topology) */
+/* what hwloc-distrib configures: default type filters (no instruction caches, no I/O, Groups merged) and IMPORT_SUPPORT */
+static hwloc_topology_t distrib_topology(const struct topo *tp)
+{
+  static hwloc_topology_t cache_t; static const struct topo *cache_tp;
+  if (cache_tp != tp) { if (cache_t) hwloc_topology_destroy(cache_t); cache_t = NULL; cache_tp = tp;
+    struct ucfg c; ucfg_default(&c); c.flags = HWLOC_TOPOLOGY_FLAG_IMPORT_SUPPORT; if (univ_load(&cache_t, tp->src, &c)) cache_t = NULL; }
+  return cache_t;
+}
+static void distrib_levels_checks(const struct topo *tp, uint64_t *idx)
+{
+  hwloc_topology_t t0 = distrib_topology(tp); if (!t0) return;
+  struct lvl L[40]; int nl = levels_of(t0, L);
+  int pus = hwloc_bitmap_weight(hwloc_topology_get_topology_cpuset(t0));
+  hwloc_bitmap_t half = hwloc_bitmap_alloc(); { int k = 0, i; hwloc_bitmap_foreach_begin(i, hwloc_topology_get_topology_cpuset(t0)) { if (k++ < (pus + 1) / 2) hwloc_bitmap_set(half, (unsigned)i); } hwloc_bitmap_foreach_end(); }
+  char *halfs; hwloc_bitmap_asprintf(&halfs, half);
+  static const char *MODE[] = { "--to", "--from", "--at" };
+  for (int restricted = 0; restricted < 2; restricted++) for (int a = 0; a < nl; a++) for (int mode = 0; mode < 3; mode++) {
+    if (L[a].depth < 0 || isdigit((unsigned char)L[a].name[0])) continue;     /* normal levels that have a type name */
+    static const int NS[] = { 1, 2, 3, 0, -1 };      /* 0 = #PU, -1 = #PU + 1 */
+    for (int ni = 0; ni < 5; ni++, (*idx)++) {
+      if (!mc_mine(*idx) || mc_deadline()) continue;
+      int n = NS[ni] > 0 ? NS[ni] : NS[ni] == 0 ? pus : pus + 1;
+      if (!mc_case("distrib %s | %s%s %s %s %d", tp->input, restricted ? "--restrict " : "", restricted ? halfs : "", MODE[mode], L[a].name, n)) continue;
+      char ns[16]; snprintf(ns, sizeof(ns), "%d", n);
+      char *args[12]; int m = 0; args[m++] = (char *)"-i"; args[m++] = (char *)tp->input;
+      if (restricted) { args[m++] = (char *)"--restrict"; args[m++] = halfs; }
+      args[m++] = (char *)MODE[mode]; args[m++] = L[a].name; args[m++] = ns; args[m] = NULL;
+      struct result r; run_tool("hwloc-distrib", args, "", &r); MC.transitions++;
+      if (crashed("hwloc-distrib", args, &r, NULL)) { result_free(&r); continue; }
+      /* reference: the library on a copy restricted the same way */
+      hwloc_topology_t t; if (hwloc_topology_dup(&t, t0) < 0) { result_free(&r); continue; }
+      if (restricted) hwloc_topology_restrict(t, half, 0);
+      hwloc_obj_type_t ty; union hwloc_obj_attr_u at; int depth = HWLOC_TYPE_DEPTH_UNKNOWN;
+      if (hwloc_type_sscanf(L[a].name, &ty, &at, sizeof(at)) == 0) depth = hwloc_get_type_depth_with_attr(t, ty, &at, sizeof(at));
+      if (depth < 0) { if (r.status == 0) mc_violation("c20.distrib.level.status", "%s :: the type has no (single) level in the topology the tool works on, exit status 0", mc_case_text()); }
+      else if (r.status != 0) mc_violation("c20.distrib.status", "%s :: exits %d, stderr %.200s", mc_case_text(), r.status, r.err);
+      else {
+        int from = mode == 0 ? 0 : depth, to = mode == 1 ? INT_MAX : depth;
+        unsigned chunks = hwloc_get_nbobjs_by_depth(t, from); hwloc_obj_t *roots = malloc(chunks * sizeof(*roots)); for (unsigned i = 0; i < chunks; i++) roots[i] = hwloc_get_obj_by_depth(t, from, i);
+        hwloc_bitmap_t *ref = calloc((size_t)n, sizeof(*ref)); hwloc_distrib(t, roots, chunks, ref, (unsigned)n, to, 0);
+        int nlines; char **Ls = split_lines(r.out, &nlines);
+        if (nlines != n) mc_violation("c20.distrib.count", "%s :: %d lines printed", mc_case_text(), nlines);
+        else for (int i = 0; i < n; i++) { char *w = fmt_set(ref[i], 0); if (strcmp(w, Ls[i])) { mc_violation("c20.distrib.library", "%s :: line %d is '%s', hwloc_distrib gives '%s'", mc_case_text(), i, Ls[i], w); free(w); break; } free(w); }
+        for (int i = 0; i < n; i++) hwloc_bitmap_free(ref[i]);
+        free(ref); free(roots); free(Ls); MC.states++;
+      }
+      hwloc_topology_destroy(t); result_free(&r);
+    }
+  }
+  free(halfs); hwloc_bitmap_free(half);
+}
+
 static void lstopo_checks(const struct topo *tp, uint64_t *idx)
 {
   /* the library records the name of the process that loads a topology (ProcessName): be lstopo for these loads */
@@ -776,6 +831,7 @@ static void stage_other(void)
     /* quick: every second synthetic description and every XML fixture */
     if (!MC.thorough && tp->src->kind == USRC_SYNTHETIC && (ti % 2)) continue;
     distrib_checks(tp, &idx);
+    distrib_levels_checks(tp, &idx);
     lstopo_checks(tp, &idx);
     diffpatch_checks(tp, &idx);
     if (ti < 3) malformed_checks(tp, &idx);
